@@ -14,3 +14,14 @@ mut("C09-8", "C09", RM, """	if len(tagSet) == 0 {
 }""", "}", ["Untag/post:tags-consistent"], "Untag keeps an empty tag set")
 mut("C09-9", "C09", RM, "	delete(m.index, reference)\n	tagSet := m.tags[desc.Digest]\n	tagSet.Delete(reference)", "	delete(m.index, reference)\n	tagSet := m.tags[desc.Digest]", ["Untag/post:tags-consistent"], "Untag forgets the tag set")
 mut("C09-10", "C09", RM, "	tagSet := m.tags[desc.Digest]\n	return maps.Clone(tagSet)", "	tagSet := m.tags[desc.Digest]\n	return tagSet", [], "harmless for the view (alias instead of clone)", harmless=True)
+O = "content/oci/oci.go"
+mut("C09-7", "C09", O, """			for _, r := range referrers {
+				if !s.isTagged(r) {
+					deleteQueue = append(deleteQueue, r)
+				}
+			}
+""", "			deleteQueue = append(deleteQueue, referrers...)\n", ["Delete/call:append#0/requires:enqueue-untagged-only"], "(canary) pre-fix Delete: tagged referrers are queued for deletion")
+mut("C09-1", "C09", O, "		if content.Equal(desc, target) {\n			s.tagResolver.Untag(reference)", "		if content.Equal(desc, target) || desc.Digest == target.Digest {\n			s.tagResolver.Untag(reference)", ["delete/inv-step:loop0:untag-only-target", "delete/post:untag-only-target"], "delete untags every reference with the same digest")
+mut("C09-2", "C09", O, "				if !s.isTagged(d) {\n					deleteQueue = append(deleteQueue, d)\n				}", "				deleteQueue = append(deleteQueue, d)", ["Delete/call:append"], "danglings queued without the tag test")
+mut("C09-4", "C09", O, "	if tagSet.Contains(string(desc.Digest)) {\n		return len(tagSet) > 1\n	}\n	return len(tagSet) > 0", "	return len(tagSet) > 0", ["isTagged/post:exact"], "isTagged counts the digest self-reference as a tag")
+mut("C09-3", "C09", O, "		danglings, err := s.delete(ctx, head)\n		if err != nil {\n			return err\n		}", "		danglings, _ := s.delete(ctx, head)", ["Delete/decreases:loop0"], "Delete ignores delete errors (no progress guaranteed)")
